@@ -313,9 +313,11 @@ class AttributeAssignment:
         :return: True if a type filter condition is needed for the attribute assignment, else False.
         """
         attr_type = self.attr._type_
-        return (not attr_type) or (
-            (self.assigned_value.type_ and self.assigned_value.type_ is not attr_type)
-            and issubclass(self.assigned_value.type_, attr_type)
+        matched_type = self.assigned_value.type_
+        # every value of the attribute is of the matched type only if the declared type is the matched type or one of
+        # its subclasses; a subclass or an unrelated class has to be filtered for.
+        return (not attr_type) or bool(
+            matched_type and not issubclass(attr_type, matched_type)
         )
 
 
